@@ -23,7 +23,8 @@ def declare(spec):
     # ---- Schedule: the timetable consumer.  sched_ok ties next_c to the generator position:
     # after k shifts have been taken, c is the size of shift k-1... and next_c the size of shift k (cyclically)
     M["sched_cfg_ok"] = ("lambda s: len(s.shift_end_dates) > 0 and len(s.numbers_of_servers) == len(s.shift_end_dates) "
-                         "and forall_in(s.shift_end_dates, lambda b: is_fin(b)) and is_fin(s.offset) and is_fin(s.cyclelength)")
+                         "and forall_in(s.shift_end_dates, lambda b: is_fin(b)) and is_fin(s.offset) and is_fin(s.cyclelength) "
+                         "and forall_in(s.numbers_of_servers, lambda v: v >= 0)")
     M["sched_ok"] = ("lambda s: sched_cfg_ok(s) and gen_pos(s.schedule_generator) >= 0 "
                      "and s.next_c == s.numbers_of_servers[gen_pos(s.schedule_generator) % len(s.numbers_of_servers)] "
                      "and same_gen_args(s)")
@@ -43,6 +44,7 @@ def declare(spec):
              "self.next_shift_change_date == self.offset + self.shift_end_dates[old(gen_pos(self.schedule_generator)) % len(self.shift_end_dates)] "
              "+ (old(gen_pos(self.schedule_generator)) // len(self.shift_end_dates)) * self.cyclelength"),
             ("C12:one-step-along-the-timetable", "gen_pos(self.schedule_generator) == old(gen_pos(self.schedule_generator)) + 1 and sched_ok(self)"),
+            ("C12:never-a-negative-number-of-servers", "self.c >= 0"),
         ],
         props=["C12"])
 
@@ -87,6 +89,9 @@ def declare_node_side(spec):
              "S(self.all_servers_busy) == append1(old(S(self.all_servers_busy)), srvr.busy_time) and "
              "S(self.all_servers_total) == append1(old(S(self.all_servers_total)), srvr.total_time)"),
             ("C12:exactly-that-server-leaves", "S(self.servers) == remove1(old(S(self.servers)), srvr)"),
+            ("C12:every-other-server-stays", "forall_in(old(S(self.servers)), lambda s: ref_eq(s, srvr) or s in self.servers)"),
+            ("C12:no-server-appears", "forall_in(self.servers, lambda s: s in old(S(self.servers)))"),
+            ("C12:the-server-is-gone", "implies(old(nodup_p(S(self.servers))), not (srvr in self.servers) and nodup_p(S(self.servers)))"),
         ],
         props=["C04", "C12"])
 
@@ -114,47 +119,118 @@ def declare_node_side(spec):
         props=["C12", "C04"])
 
 
+    # ---- after a shift change: free servers take interrupted customers first, then waiting ones (C12 / C05 / C02)
+    IND_W = ["arrival_date", "service_start_date", "service_time", "service_end_date", "server", "reneging_date", "class_change_date", "next_class",
+             "interrupted", "is_blocked", "destination"]
+    add(spec, "Node.begin_service_if_possible_change_shift", loop_assumes_inv=True,
+        requires=[INV("shape(self)"), INV("net_ok(self)"), INV("float_clock(self)"), INV("has_servers(self)"), INV("dyn_ok(self)"), INV("pop_fwd(self)"),
+                  INV("all_waiting_ok(self)"), "not isinf(self.c)", INV("nodup_p(S(self.servers))"),
+                  INV("self.number_interrupted_individuals == len(self.interrupted_individuals)"),
+                  INV("implies(not isinf(self.c) and self.number_interrupted_individuals > 0, interrupted_head_ok(self))"),
+                  INV("implies(self.dynamic_classes, forall_in(self.individuals, lambda q: forall_in(q, lambda i: has(i, 'class_change_date'))))")],
+        modifies=[f + "@lambda o: ref_eq(loc(o), self)" for f in IND_W] + ["cust", "busy", "next_end_service_date"] +
+                 ["number_in_service@self", "next_class_change_date@self", "next_class_change_ind@self",
+                  "number_interrupted_individuals@self", "$seq@self.interrupted_individuals", "$seq[BlockedQ]", "len_blocked_queue"],
+        allocates=True, raises=[("ValueError", "True")],
+        ensures=[
+            ("C05+C12:after-a-shift-change-no-server-that-was-free-stays-idle-while-someone-waits-or-is-interrupted",
+             "forall_in(self.servers, lambda s: s.busy) or "
+             "(forall_in(self.individuals, lambda q: forall_in(q, lambda i: i.server)) and self.number_interrupted_individuals == 0)"),
+            ("C04:servers-busy-before-stay-with-their-customers",
+             "forall_in(self.servers, lambda s: implies(oldf(s, 'busy'), s.busy and ref_eq(s.cust, oldf(s, 'cust'))))"),
+            ("C12:the-set-of-servers-is-untouched", "S(self.servers) == old(S(self.servers))"),
+        ],
+        loop_invariants={0: [
+            "S(self.servers) == old(S(self.servers))",
+            "forall_in(self.servers, lambda s: implies(oldf(s, 'busy'), s.busy and ref_eq(s.cust, oldf(s, 'cust'))))",
+            "forall_int(lambda j: implies(0 <= j and j < len(_it), _it[j] in self.servers and not oldf(_it[j], 'busy')), trigger=lambda j: _it[j])",
+            "forall_in(self.servers, lambda s: oldf(s, 'busy') or s in free_servers)",
+            "forall_int(lambda j: implies(_i <= j and j < len(_it), not _it[j].busy), trigger=lambda j: _it[j])",
+            "implies(exists_int(lambda j: 0 <= j and j < _i and not _it[j].busy, trigger=lambda j: _it[j]), "
+            "forall_in(self.individuals, lambda q: forall_in(q, lambda i: i.server)) and self.number_interrupted_individuals == 0)",
+            "nodup_p(_it)",
+        ]},
+        props=["C02", "C04", "C05", "C12"])
 
-def declare_drafts(spec):
-    """NOT wired into build_spec: contracts drafted but not yet verified (see DESIGN.md A.7).  take_servers_off_duty[overtime]:
-    the postconditions and most loop obligations discharge; five loop-step / frame obligations still time out."""
+    # ---- the shift-change event (C12), non-pre-emptive schedules.  Registered for the receiver class Node ("Node::Node.change_shift"):
+    # the event loop keeps using the assumed placeholder Node.change_shift (which also covers pre-emptive schedules, unverified)
+    add(spec, "Node::Node.change_shift",
+        requires=[("scope:non-pre-emptive-schedule", "is_obj(self.schedule, 'Schedule') and as_obj(self.schedule, 'Schedule').preemption is False"),
+                  INV("sched_ok(as_obj(self.schedule, 'Schedule'))"),
+                  INV("shape(self)"), INV("net_ok(self)"), INV("float_clock(self)"), INV("has_servers(self)"), INV("dyn_ok(self)"), INV("pop_fwd(self)"),
+                  INV("all_waiting_ok(self)"), "not isinf(self.c) and has(self, 'servers')", "is_fin(self.now) and is_fin(self.next_event_date)", "is_int(self.highest_id)",
+                  INV("srv_dates_ok(self)"), INV("nodup_p(S(self.servers))"),
+                  ("C12:a-shift-change-is-the-node's-own-event", "self.next_event_date == self.now"),
+                  "len(self.overtime) >= 0 and len(self.all_servers_busy) >= 0 and len(self.all_servers_total) >= 0",
+                  INV("self.number_interrupted_individuals == len(self.interrupted_individuals)"),
+                  INV("implies(not isinf(self.c) and self.number_interrupted_individuals > 0, interrupted_head_ok(self))"),
+                  INV("implies(self.dynamic_classes, forall_in(self.individuals, lambda q: forall_in(q, lambda i: has(i, 'class_change_date'))))")],
+        modifies=["*"], allocates="any", raises=[("ValueError", "True")],
+        expect_calls={"get_next_shift": 1, "take_servers_off_duty": 1, "add_new_servers": 1, "begin_service_if_possible_change_shift": 1},
+        at_call={
+            "take_servers_off_duty": [
+                ("C12:the-node-takes-the-number-of-servers-the-timetable-prescribes-for-the-new-shift",
+                 "self.c == as_obj(self.schedule, 'Schedule').numbers_of_servers[old(gen_pos(as_obj(self.schedule, 'Schedule').schedule_generator)) "
+                 "% len(as_obj(self.schedule, 'Schedule').numbers_of_servers)]"),
+                ("C12:the-next-shift-change-is-at-the-cyclic-boundary",
+                 "self.next_shift_change == as_obj(self.schedule, 'Schedule').next_shift_change_date")],
+            "add_new_servers": [
+                ("C12:only-servers-finishing-a-customer-remain-and-they-are-off-duty",
+                 "forall_in(self.servers, lambda s: s.busy and s.offduty)"),
+                ("C12:exactly-the-prescribed-number-is-added", "arg_num_servers == self.c")],
+            "begin_service_if_possible_change_shift": [
+                ("C12:servers-on-duty-are-exactly-the-new-ones-as-many-as-the-timetable-prescribes",
+                 "len(self.servers) >= self.c and forall_int(lambda k: implies(0 <= k and k < len(self.servers), "
+                 "(not self.servers[k].offduty) == (k >= len(self.servers) - self.c)), trigger=lambda k: self.servers[k])")],
+        },
+        props=["C12", "C05"])
+
+
+def declare_shift_end(spec):
+    """shift end at a node with a non-pre-emptive schedule (verified); the pre-emptive branch is outside the contract scope (DESIGN.md A.7).  take_servers_off_duty:
+    every obligation discharges (two need the relevancy-1 attempt)."""
     M = spec.macros
     # ---- a shift ends (C12): non-pre-emptive: busy servers finish their customer as overtime (marked off duty), idle ones leave;
     # pre-emptive: every service in progress is interrupted now and every server leaves
     M["srv_dates_ok"] = ("lambda n: forall_in(n.servers, lambda s: is_fin(s.start_date) and is_fin(s.busy_time) "
                          "and (s.shift_end is False or is_fin(s.shift_end)))")
     add(spec, "Node.take_servers_off_duty", types={"preemption": "orfalse:str"},
-        requires=["has(self, 'servers')", INV("float_clock(self)"), "is_fin(self.now)", INV("srv_dates_ok(self)"),
+        requires=[("scope:non-pre-emptive-schedule (a pre-emptive shift end -- interrupt_service for every customer in service -- is not under contract)", "preemption is False"),
+                  "has(self, 'servers')", INV("float_clock(self)"), "is_fin(self.now) and is_fin(self.next_event_date)", INV("srv_dates_ok(self)"),
                   ("C12:a-shift-change-is-the-node's-own-event", "self.next_event_date == self.now"),
                   "len(self.overtime) >= 0 and len(self.all_servers_busy) >= 0 and len(self.all_servers_total) >= 0 and len(self.servers) >= 0",
-                  INV("nodup(S(self.servers))")],
+                  INV("nodup_p(S(self.servers))")],
         allocates=True, raises=[("ValueError", "True")],
         loop_invariants={
-                     0: ["forall_int(lambda j: implies(0 <= j and j < _i, _it[j].shift_end == self.now and implies(_it[j].busy, _it[j].offduty) "
-                         "and (_it[j].busy or _it[j] in to_delete)), trigger=lambda j: _it[j])",
-                         "forall_in(to_delete, lambda s: s in self.servers and not s.busy and s.shift_end == self.now)",
-                         "S(self.servers) == old(S(self.servers))", "srv_dates_ok(self)",
-                         "forall_in(to_delete, lambda s: index_of(_it, s) < _i)",
-                         "nodup(S(to_delete))"],
-                     2: ["forall_int(lambda j: implies(_i <= j and j < len(_it), as_obj(_it[j], 'Server') in self.servers), trigger=lambda j: _it[j])",
-                         "forall_in(to_delete, lambda s: s in old(S(self.servers)) and s.shift_end == self.now and is_fin(s.start_date) and is_fin(s.busy_time) and not s.busy)",
-                         "nodup(S(to_delete))", "S(to_delete) == _it", "nodup(S(self.servers))",
-                         "forall_in(self.servers, lambda s: s in old(S(self.servers)) and (s.busy or s in to_delete))",
-                         "forall_in(old(S(self.servers)), lambda s: implies(oldf(s, 'busy'), s in self.servers))",
-                         "forall_int(lambda j: implies(0 <= j and j < _i, not (as_obj(_it[j], 'Server') in self.servers)), trigger=lambda j: _it[j])",
-                         "srv_dates_ok(self)"],
+            0: ["S(self.servers) == old(S(self.servers)) and S(self.servers) == _it and nodup_p(_it)",
+                "forall_int(lambda j: implies(0 <= j and j < _i, _it[j].shift_end == self.now and implies(_it[j].busy, _it[j].offduty) "
+                "and (_it[j].busy or _it[j] in to_delete)), trigger=lambda j: _it[j])",
+                "forall_int(lambda k: implies(0 <= k and k < len(to_delete), 0 <= index_of(_it, to_delete[k]) and index_of(_it, to_delete[k]) < _i "
+                "and not as_obj(to_delete[k], 'Server').busy and is_fin(as_obj(to_delete[k], 'Server').shift_end)), trigger=lambda k: to_delete[k])",
+                "same('busy')",
+                "nodup_p(S(to_delete))"],
+            2: ["S(to_delete) == _it and nodup_p(_it) and nodup_p(S(self.servers))",
+                "len(self.servers) == old(len(self.servers)) - _i",
+                "forall_int(lambda j: implies(0 <= j and j < len(_it), _it[j] in old(S(self.servers)) and is_fin(_it[j].shift_end) "
+                "and not _it[j].busy and not oldf(_it[j], 'busy')), trigger=lambda j: _it[j])",
+                "forall_int(lambda j: implies(_i <= j and j < len(_it), _it[j] in self.servers), trigger=lambda j: _it[j])",
+                "forall_int(lambda j: implies(0 <= j and j < _i, not (_it[j] in self.servers)), trigger=lambda j: _it[j])",
+                "forall_in(self.servers, lambda s: s in old(S(self.servers)) and (s.busy or s in to_delete))",
+                "forall_in(old(S(self.servers)), lambda s: implies(oldf(s, 'busy'), s in self.servers))"],
         },
-        cases=[
-            dict(name="overtime", when="preemption is False",
-                 modifies=["shift_end@S(self.servers)", "offduty@S(self.servers)", "total_time@S(self.servers)", "$seq@self.servers",
-                           "$seq@self.overtime", "$seq@self.all_servers_busy", "$seq@self.all_servers_total"],
-                 ensures=[
-                     ("C12:busy-servers-stay-to-finish-their-customer-and-are-marked-off-duty",
-                      "forall_in(old(S(self.servers)), lambda s: implies(oldf(s, 'busy'), s in self.servers and s.offduty and s.shift_end == self.now))"),
-                     ("C12:idle-servers-leave-at-once",
-                      "forall_in(self.servers, lambda s: s.busy and s in old(S(self.servers)))"),
-                     ("C12:no-service-is-touched", "same('cust', 'busy', 'service_start_date', 'service_end_date', 'number_in_service')"),
-                 ]),
-            dict(name="preemptive", when="not (preemption is False)", modifies=["*"], ensures=[]),
+
+        at_call={"kill_server": [
+            ("lemma-the-server-to-delete-is-still-there", "obs in self.servers and index_of(_it2, obs) == _i2"),
+            ("lemma-later-entries-are-other-servers",
+             "forall_int(lambda j: implies(_i2 < j and j < len(_it2), not ref_eq(_it2[j], obs)), trigger=lambda j: _it2[j])"),
+        ]},
+        modifies=["shift_end@S(self.servers)", "offduty@S(self.servers)", "total_time", "$seq@self.servers",
+                  "$seq@self.overtime", "$seq@self.all_servers_busy", "$seq@self.all_servers_total"],
+        ensures=[
+            ("C12:busy-servers-stay-to-finish-their-customer-and-are-marked-off-duty",
+             "forall_in(old(S(self.servers)), lambda s: implies(oldf(s, 'busy'), s in self.servers and s.offduty and s.shift_end == self.now))"),
+            ("C12:idle-servers-leave-at-once",
+             "forall_in(self.servers, lambda s: s.busy and s in old(S(self.servers)))"),
+            ("C12:no-service-is-touched", "same('cust', 'busy', 'service_start_date', 'service_end_date', 'number_in_service')"),
         ],
         props=["C12"])
